@@ -8,7 +8,7 @@
    `wf` is the splitter's post-condition: the two space parts are blank, an empty value
    has no space after it. *)
 From PV Require Import Lib.Bytes Model.Tabs Model.Varalign Model.LayoutFix
-  Proofs.Tabs Proofs.VaralignBlanks Proofs.VaralignFile Proofs.VaralignSingle Proofs.LayoutFix Proofs.C15Final Proofs.C15Blank Proofs.C15Margin.
+  Proofs.Tabs Proofs.VaralignBlanks Proofs.VaralignFile Proofs.VaralignSingle Proofs.LayoutFix Proofs.C15Final Proofs.C15Blank Proofs.C15Margin Proofs.C15Total.
 Open Scope Z_scope.
 
 (* ===== width arithmetic ===== *)
@@ -135,6 +135,32 @@ Theorem C15_shell_blanks_only : forall flag raws raws',
   shellTabs flag raws = Ok raws' -> Forall2 blank_eq raws raws'.
 Proof. exact shell_blanks_only. Qed.
 Print Assumptions C15_shell_blanks_only.
+
+(* round 4: totality (no Go panic) and the exact result of the compact fixers *)
+
+(* CheckTrailingWhitespace never panics on a logical line (>= 1 raw line) and removes exactly the
+   maximal suffix of spaces and tabs of the last raw line *)
+Theorem C15_trailing_exact : forall raws, raws <> [] ->
+  exists init last, raws = init ++ [last] /\
+    checkTrailingWhitespace raws = Ok (init ++ [rtrimHspace last]).
+Proof. exact checkTrailingWhitespace_spec. Qed.
+Print Assumptions C15_trailing_exact.
+
+(* checkDirectiveIndentation never panics for a depth >= 0 (strings.Repeat, ReplaceAt's assertions) *)
+Theorem C15_directive_total : forall sn raw0 ind d, 0 <= d ->
+  exists r, checkDirectiveIndentation sn raw0 ind d = Ok r.
+Proof. exact directive_total. Qed.
+Print Assumptions C15_directive_total.
+
+(* the tab normalisation of checkShellCommand never panics when the first raw line starts with two tabs;
+   the guard is needed: with a single tab ReplaceAt's assert(from != to) fails *)
+Theorem C15_shell_total : forall r0 rs, has_prefix [TAB; TAB] r0 = true ->
+  exists raws', shellTabs true (r0 :: rs) = Ok raws'.
+Proof. exact shell_total. Qed.
+Print Assumptions C15_shell_total.
+
+Example C15_shell_needs_two_tabs : shellTabs true [[9; 120]%N] = Panic.
+Proof. vm_compute. reflexivity. Qed.
 
 (* fixSpaceAfterVarname (as of /repo 42e6bf1 the leading comment marker is kept) *)
 Theorem C15_spaceAfterVarname_blanks_only : forall raws vn sp op p0 raws',
